@@ -6,6 +6,9 @@
 #include "util/file_stream.hh"
 #include "util/file_piece.hh"
 #include "util/pcqueue.hh"
+#ifdef PREPROCESS_VERIF
+#include "util/verif_hooks.hh"
+#endif
 
 
 namespace {
@@ -36,7 +39,13 @@ int main(int argc, char **argv) {
 		// Decoded document buffer
 		std::string doc;
 
+#ifdef PREPROCESS_VERIF
+		uint64_t verif_record = 0;
+#endif
 		for (util::StringPiece line : in) {
+#ifdef PREPROCESS_VERIF
+			PREPROCESS_VERIF_TRACE('F', "rec", verif_record);
+#endif
 			preprocess::base64_decode(line, doc);
 
 			// Description of the document
@@ -55,21 +64,41 @@ int main(int argc, char **argv) {
 			
 			// Send line count first to the reader, so it can start reading as
 			// soon as we start feeding the document to the child.
+#ifdef PREPROCESS_VERIF
+			PREPROCESS_VERIF_TRACE('F', "lines", doc_desc.line_cnt);
+			PREPROCESS_VERIF_TRACE('F', "enq", verif_record);
+#endif
 			line_cnt_queue.Produce(std::move(doc_desc));
+#ifdef PREPROCESS_VERIF
+			PREPROCESS_VERIF_TRACE('F', "send", verif_record);
+#endif
 
 			// Feed the document to the child.
 			// Might block because it can cause a flush.
 			child_in << doc;
+#ifdef PREPROCESS_VERIF
+			++verif_record;
+#endif
 		}
 
 		// Tell the reader to stop
+#ifdef PREPROCESS_VERIF
+		PREPROCESS_VERIF_TRACE('F', "eof", verif_record);
+		PREPROCESS_VERIF_TRACE('F', "enq-poison", 0);
+#endif
 		line_cnt_queue.Produce(Document{
 			.line_cnt = 0,
 			.has_trailing_newline = false
 		});
 
 		// Flush (blocks).  The FileStream destructor closes.
+#ifdef PREPROCESS_VERIF
+		PREPROCESS_VERIF_TRACE('F', "flush", verif_record);
+#endif
 		child_in.flush();
+#ifdef PREPROCESS_VERIF
+		PREPROCESS_VERIF_TRACE('F', "flushed", verif_record);
+#endif
 	});
 
 	std::thread reader([&child_out_fd, &line_cnt_queue]() {
@@ -80,8 +109,15 @@ int main(int argc, char **argv) {
 		Document document;
 		std::string doc;
 
+#ifdef PREPROCESS_VERIF
+		uint64_t verif_line = 0;
+#endif
 		while (line_cnt_queue.Consume(document).line_cnt > 0) {
 			++doc_cnt;
+#ifdef PREPROCESS_VERIF
+			PREPROCESS_VERIF_TRACE('C', "deq", doc_cnt - 1);
+			PREPROCESS_VERIF_TRACE('C', "need", document.line_cnt);
+#endif
 
 			doc.clear();
 			doc.reserve(document.line_cnt * 4096); // 4096 is not a typical line length
@@ -89,6 +125,9 @@ int main(int argc, char **argv) {
 			try {
 				while (document.line_cnt-- > 0) {
         util::StringPiece line(child_out.ReadLine('\n', false));
+#ifdef PREPROCESS_VERIF
+					PREPROCESS_VERIF_TRACE('C', "line", verif_line++);
+#endif
 					doc.append(line.data(), line.length());
 
 					// ReadLine eats line endings. Between lines we definitely
@@ -104,7 +143,13 @@ int main(int argc, char **argv) {
 			std::string encoded_doc;
 			preprocess::base64_encode(doc, encoded_doc);
 			out << encoded_doc << '\n';
+#ifdef PREPROCESS_VERIF
+			PREPROCESS_VERIF_TRACE('C', "emit", doc_cnt - 1);
+#endif
 		}
+#ifdef PREPROCESS_VERIF
+		PREPROCESS_VERIF_TRACE('C', "deq-poison", 0);
+#endif
 
 		// Assert that we have consumed all the output of the child program.
 		try {
@@ -115,6 +160,9 @@ int main(int argc, char **argv) {
 			UTIL_THROW(util::Exception, "sub-process is producing more output than it was given input");
 		} catch (util::EndOfFileException &e) {
 			// Good!
+#ifdef PREPROCESS_VERIF
+			PREPROCESS_VERIF_TRACE('C', "child-eof", 0);
+#endif
 		}
 	});
 
